@@ -16,6 +16,7 @@ package main
 // as many physical forms as the map implementation offers.
 
 import (
+	"context"
 	"fmt"
 	"math"
 	"math/rand"
@@ -989,6 +990,11 @@ func c18DefaultMonitorRound(ctx *Ctx, r *rand.Rand, rd int) {
 				metrics.DefaultCounter([]string{"cache_misses_total", "cache_hits_total", "searches_total"}[r.Intn(3)], nil).Add(int64(1 + r.Intn(40)))
 				metrics.DefaultCounter("database_operations_total", map[string]string{"operation": c18DefaultOps[r.Intn(len(c18DefaultOps))], "success": "true"}).Inc()
 				metrics.DefaultHistogram("query_length", nil).Observe(float64(r.Intn(100)))
+				metrics.DefaultGauge("search_results", nil).Set(float64(r.Intn(100)))
+				metrics.DefaultTimer("search_duration", map[string]string{"cache_hit": "true"}).TimeFunc(func() {})
+				metrics.RecordMemoryUsage()
+				_ = metrics.GetSystemMetrics()
+				_ = metrics.GetAllMetrics()
 				ctx.R.Path("default-collector-helper-calls", 1)
 			default:
 				if r.Intn(3) == 0 {
@@ -1027,12 +1033,40 @@ func c18SeqMonitorRound(ctx *Ctx, r *rand.Rand, rd int) {
 				} else {
 					ctx.R.Path("monitor-db-ops", 1)
 				}
+				switch r.Intn(16) { // calls that record no search and no database operation
+				case 0:
+					pm.RecordMemoryUsage()
+					ctx.R.Path("monitor-bystander-calls", 1)
+				case 1:
+					_ = pm.IsEnabled()
+					_ = pm.GetPerformanceReport()
+					rp := pm.GetPerformanceReport()
+					_ = rp.String()
+					ctx.R.Path("monitor-bystander-calls", 1)
+				case 2:
+					bm := metrics.NewBenchmarker(pm)
+					bm.BenchmarkFunction("nothing", func() {}, 1+r.Intn(3))
+					bm.ProfileMemory("nothing", func() {})
+					ctx.R.Path("monitor-bystander-calls", 1)
+				case 3:
+					mctx, cancel := context.WithCancel(context.Background())
+					done := make(chan struct{})
+					go func() { pm.StartMemoryMonitoring(mctx, time.Millisecond); close(done) }()
+					time.Sleep(3 * time.Millisecond)
+					cancel()
+					<-done
+					ctx.R.Path("monitor-bystander-calls", 1)
+				}
 			}
 		})
 		ctx.R.Eval(int64(n))
 		var rep metrics.PerformanceReport
 		if ctx.R.Guard("C18", "PerformanceMonitor.GetPerformanceReport", cs, func() { rep = pm.GetPerformanceReport() }) {
 			c18CheckReport(ctx, "PerformanceMonitor", false, rep, x, fmt.Sprintf("shard %d round %d after batch %d", ctx.Shard, rd, b), once)
+		}
+		// the report asked for again: reading it changes nothing
+		if ctx.R.Guard("C18", "PerformanceMonitor.GetPerformanceReport", cs, func() { rep = pm.GetPerformanceReport() }) {
+			c18CheckReport(ctx, "PerformanceMonitor", false, rep, x, fmt.Sprintf("shard %d round %d after batch %d, second reading", ctx.Shard, rd, b), once)
 		}
 		if r.Intn(2) == 0 {
 			// monitoring paused and resumed with nothing recorded in between: what was recorded before stays counted
@@ -1113,6 +1147,41 @@ func c18SeqMDBRound(ctx *Ctx, r *rand.Rand, rd int) {
 			}
 			c18MDBSearch(r, d, x)
 			ctx.R.Path("monitor-search-ops", 1)
+			// the wrapper's other methods between two searches: the measuring helpers run monitored searches of their own
+			// (each of them is an operation recorded), the reading ones record nothing
+			switch r.Intn(12) {
+			case 0:
+				qs := []string{d.queries[r.Intn(len(d.queries))], d.queries[r.Intn(len(d.queries))]}[:1+r.Intn(2)]
+				it := 1 + r.Intn(3)
+				d.mdb.BenchmarkSearch(qs, it)
+				for _, q := range qs {
+					atomic.AddInt64(&x.nSearch, int64(it))
+					atomic.AddInt64(&x.qlenSum, int64(it*len(q)))
+				}
+				ctx.R.Path("monitor-bystander-calls", 1)
+			case 1:
+				q := d.queries[r.Intn(len(d.queries))]
+				d.mdb.ProfileSearchMemory(q)
+				atomic.AddInt64(&x.nSearch, 1)
+				atomic.AddInt64(&x.qlenSum, int64(len(q)))
+				ctx.R.Path("monitor-bystander-calls", 1)
+			case 2:
+				q := d.queries[r.Intn(len(d.queries))]
+				it := 1 + r.Intn(3)
+				spa := database.NewSearchPerformanceAnalyzer(d.mdb)
+				spa.AnalyzeQuery(q, it)
+				_ = spa.GenerateReport()
+				_ = spa.GetResults()
+				atomic.AddInt64(&x.nSearch, int64(it))
+				atomic.AddInt64(&x.qlenSum, int64(it*len(q)))
+				ctx.R.Path("monitor-bystander-calls", 1)
+			case 3:
+				d.mdb.RecordMemoryUsage()
+				_ = d.mdb.IsMonitoringEnabled()
+				_ = d.mdb.GetPerformanceReport()
+				_ = d.mdb.GetPerformanceReport()
+				ctx.R.Path("monitor-bystander-calls", 1)
+			}
 			if r.Intn(15) == 0 {
 				d.mdb.EnableMonitoring(false)
 				d.mdb.EnableMonitoring(true)
